@@ -17,8 +17,8 @@ BASE_ASSUME = [
 ]
 
 
-def fs(n, length, oracles, wild=False, rs="20,1,3,7", timeout=1500, extra=None):
-    a = ["-n", str(n), "-len", str(length), "-workers", "16", "-oracles", oracles, "-rs", rs]
+def fs(n, length, oracles, wild=False, rs="20,1,3,7", timeout=1500, extra=None, mode="plain"):
+    a = ["-n", str(n), "-len", str(length), "-workers", "16", "-oracles", oracles, "-rs", rs, "-mode", mode]
     if wild:
         a.append("-wild")
     if extra:
@@ -33,6 +33,24 @@ PLAN = {
             "thorough": [fs(3000, 18, "C04", rs="20,1,2,3,7,64", timeout=5000), fs(1500, 18, "C04", wild=True, rs="20,1,2,3,7,64", timeout=5000)],
         },
         "generated": ["Stfs/Gen/PosArith.lean (pkg/recovery/index.go, query.go, fetch.go)", "Stfs/Gen/Consts.lean"],
+        "trusted_base": BASE_TRUST,
+        "assumptions": BASE_ASSUME,
+    },
+    "C05": {
+        "streams": {
+            "quick": [fs(160, 14, "C05"), fs(80, 14, "C05", wild=True)],
+            "thorough": [fs(3000, 18, "C05", rs="20,1,2,3,7,64", timeout=5000), fs(1500, 18, "C05", wild=True, rs="20,1,2,3,7,64", timeout=5000)],
+        },
+        "generated": ["Stfs/Gen/OpenFlags.lean (pkg/tape/write.go OpenTapeWriteOnly, pkg/tape/manager.go GetWriter)"],
+        "trusted_base": BASE_TRUST,
+        "assumptions": BASE_ASSUME + ["os.OpenFile with O_APPEND appends at end of file; the tar writer emits whole 512-byte blocks (validated by the oracle's independent reader on every call)"],
+    },
+    "C15": {
+        "streams": {
+            "quick": [fs(160, 24, "C15", mode="ro")],
+            "thorough": [fs(3000, 30, "C15", mode="ro", rs="20,1,2,3,7,64", timeout=5000)],
+        },
+        "generated": ["Stfs/Gen/Guards.lean (every method of *STFS and *File in pkg/fs)"],
         "trusted_base": BASE_TRUST,
         "assumptions": BASE_ASSUME,
     },
